@@ -81,7 +81,8 @@ def listener_scenario(prog, nsteps, stats):
     timeout = [z3.BitVec("timeout%d" % i, 64) for i in range(nsteps)]
     now = [z3.BitVec("now%d" % i, 64) for i in range(nsteps)]
     found = {}
-    covers = stats.setdefault("covers", {"listener registered": 0, "registered listener answered by a change": 0, "tick after a deadline": 0})
+    covers = stats.setdefault("covers", {"listener registered": 0, "registered listener answered by a change": 0, "tick after a deadline": 0, "tmp value set": 0,
+                                         "listener waits across a tmp value": 0})
 
     def thunk():
         conn = ConnManage()
@@ -93,8 +94,9 @@ def listener_scenario(prog, nsteps, stats):
         log = []
         for i in range(nsteps):
             # 0: L1 on k1   1: L2 on {k1,k2}   2: publish k1   3: publish k2   4: remove k1   5: tick
+            # 6: SetTmpValue k1 (what a node that forwarded a publish to the leader does before the raft apply arrives)
             op = None
-            for cand in range(6):
+            for cand in range(7):
                 if it.branch(step[i] == cand):
                     op = cand
                     break
@@ -138,7 +140,7 @@ def listener_scenario(prog, nsteps, stats):
                     if answered_now:
                         # answered although nothing differs and the time-out is positive: allowed only as an (empty) no-change answer? the source registers
                         return ("violation", "a listener with up-to-date md5s and a positive time-out is answered at once", log, "fresh-listener-answered")
-                ls[name] = {"sender": snd, "keys": keys, "deadline": tval, "registered": not answered_now, "n_at_reg": len(snd.sent)}
+                ls[name] = {"sender": snd, "keys": keys, "deadline": tval, "registered": not answered_now, "n_at_reg": len(snd.sent), "held": held[i]}
                 if not answered_now:
                     covers["listener registered"] += 1
             elif op in (2, 3):
@@ -164,6 +166,11 @@ def listener_scenario(prog, nsteps, stats):
                     r = must_be_answered(ls, k, log, "remove")
                     if r:
                         return r
+            elif op == 6:
+                k = KEYS[0]
+                it._invoke(handle, [actor, Enum("ConfigCmd", "SetTmpValue", [k, content[i]]), "ctx"], self_ty="ConfigActor")
+                log.append(("set-tmp-value", k["data_id"]))
+                covers["tmp value set"] = covers.get("tmp value set", 0) + 1
             else:
                 nowv = 50
                 for cand in (150, 250):
@@ -188,6 +195,20 @@ def listener_scenario(prog, nsteps, stats):
             for name, l in ls.items():
                 if len(l["sender"].sent) > 1:
                     return ("violation", "a listener is answered twice", log, "answered-twice")
+            # state form of the property: no registered, unanswered listener holds an md5 that differs from the stored one
+            # (a key whose value is a tmp value is between a forwarded publish and its raft apply: the apply owes the notification)
+            for name, l in ls.items():
+                if not l["registered"] or l["sender"].sent:
+                    continue
+                for k in l["keys"]:
+                    v = actor["cache"].get(k)
+                    if v is not None and v["tmp"] is True:
+                        covers["listener waits across a tmp value"] = covers.get("listener waits across a tmp value", 0) + 1
+                        continue
+                    cm = v["md5"] if v is not None else ""
+                    stale = it.lnot(it.eq(l["held"], cm))
+                    if stale is True or (not isinstance(stale, bool) and possible(it, stale)):
+                        return ("violation", "listener %s keeps waiting although the md5 it holds for %s differs from the stored one" % (name, k["data_id"]), log, "listener-waits-on-stale-md5")
         return ("ok", None, log, None)
     it.solver.push()
     for i in range(nsteps):
@@ -215,6 +236,16 @@ def listener_scenario(prog, nsteps, stats):
 
 
 COVER = {}
+
+
+def possible(it, cond):
+    cond = z3.simplify(cond)
+    if z3.is_false(cond):
+        return False
+    if it._feasible(cond):
+        it.pc.append(cond)
+        return True
+    return False
 
 
 def is_notify(m, k, clients):
@@ -359,7 +390,7 @@ def run(tier, seed):
     for name, fn, n, enc, bound in (
             ("s10_1_long_poll", listener_scenario, 3 if tier == "quick" else 4,
              ["Handler<ConfigCmd>::handle (LISTENER arm)", "ConfigListener::{add,notify,timeout}", "ConfigActor::{set_config,del_config}"],
-             "every sequence of %d messages over {listen L1(k1), listen L2(k1,k2), publish k1, publish k2, remove k1, tick}; held md5, contents, time-outs and clock symbolic"),
+             "every sequence of %d messages over {listen L1(k1), listen L2(k1,k2), publish k1, publish k2, remove k1, tick, SetTmpValue k1}; held md5, contents, time-outs and clock symbolic"),
             ("s10_2_subscribers", subscriber_scenario, 3 if tier == "quick" else 4,
              ["Handler<ConfigCmd>::handle (Subscribe / RemoveSubscribe / RemoveSubscribeClient arms)", "Subscriber::{add_subscribe,remove_subscribe,remove_client_subscribe,remove_config_key,notify}",
               "ConfigActor::{set_config,del_config}"],
